@@ -30,12 +30,16 @@ pub(crate) use harnesses;
 pub mod h_lemmas;
 pub mod h_c03;
 pub mod h_decoders;
+pub mod h_inputs;
+pub mod h_steps;
 
 /// all harnesses reachable from this module (the child modules in opaque.rs / envelope.rs /
 /// tripledh.rs register theirs through `child_tables`)
-pub fn tables() -> [&'static [(&'static str, fn())]; 6] {
+pub fn tables() -> [&'static [(&'static str, fn())]; 8] {
     [
         h_lemmas::TABLE,
+        h_steps::TABLE,
+        h_inputs::TABLE,
         h_c03::TABLE,
         h_decoders::TABLE,
         crate::opaque::verif_kani_opaque::TABLE,
